@@ -10,6 +10,7 @@ pub mod c09;
 pub mod c10;
 pub mod c13;
 pub mod c14;
+pub mod c19;
 
 use crate::ctx::Ctx;
 
@@ -62,6 +63,7 @@ pub fn run(id: &str, ctx: &mut Ctx) -> bool {
         "C10" => c10::run(ctx),
         "C13" => c13::run(ctx),
         "C14" => c14::run(ctx),
+        "C19" => c19::run(ctx),
         _ => return false,
     }
     true
@@ -105,6 +107,7 @@ pub fn replay_value(id: &str, ctx: &mut Ctx, r: &serde_json::Value) -> bool {
         "C10" => c10::replay(ctx, r),
         "C13" => c13::replay(ctx, r),
         "C14" => c14::replay(ctx, r),
+        "C19" => c19::replay(ctx, r),
         _ => {
             let _ = (ctx, r);
             false
